@@ -1,6 +1,7 @@
 package dir
 
 import (
+	"errors"
 	"sync/atomic"
 
 	"storj.io/drpc"
@@ -34,5 +35,11 @@ func (e *GateEnc) Unmarshal(b []byte, m drpc.Message) error {
 		e.U.Wait()
 	}
 	m.(*Msg).Data = append([]byte(nil), b...)
+	if len(b) >= 3 && string(b[:3]) == "bad" {
+		return ErrDecode // a payload this encoding cannot decode
+	}
 	return nil
 }
+
+// ErrDecode is returned by GateEnc.Unmarshal for payloads that start with "bad".
+var ErrDecode = errors.New("verif: cannot decode message")
